@@ -14,7 +14,7 @@ import (
 // Case describes a byte string structurally so that replay files stay small even for
 // strings of 10^6 characters.
 type Case struct {
-	Kind   string `json:"kind"`    // literal | power | nearpower | fibonacci | thuemorse | fill
+	Kind   string `json:"kind"`    // literal | power | nearpower | periodic | nearperiodic | fibonacci | thuemorse | fill
 	Unit   []byte `json:"unit"`    // literal: the string; power: the repeated unit; fibonacci/thuemorse: two letters
 	Reps   int    `json:"reps"`    // power: repetitions; fibonacci/thuemorse: target length; fill: length
 	MutPos int    `json:"mut_pos"` // nearpower: position (mod length) overwritten
@@ -31,6 +31,15 @@ func (c Case) Bytes() []byte {
 	case "power", "nearpower":
 		b := bytes.Repeat(c.Unit, c.Reps)
 		if c.Kind == "nearpower" && len(b) > 0 {
+			b[((c.MutPos%len(b))+len(b))%len(b)] = c.MutVal
+		}
+		return b
+	case "periodic", "nearperiodic": // the unit repeated and cut to Reps letters
+		if len(c.Unit) == 0 || c.Reps <= 0 {
+			return []byte{}
+		}
+		b := bytes.Repeat(c.Unit, c.Reps/len(c.Unit)+1)[:c.Reps]
+		if c.Kind == "nearperiodic" {
 			b[((c.MutPos%len(b))+len(b))%len(b)] = c.MutVal
 		}
 		return b
@@ -169,10 +178,12 @@ func sample(c Case) any {
 
 var subEnum = vk.Register(&vk.Sub[Case]{Name: "enum", Check: check, NonTrivial: nonTrivial, Sample: sample})
 
+var subEdges = vk.Register(&vk.Sub[Case]{Name: "edges", Check: check, NonTrivial: nonTrivial, Labels: labels, Sample: sample})
+
 var subStructured = vk.Register(&vk.Sub[Case]{Name: "structured", Gen: genStructured, Check: check, NonTrivial: nonTrivial, Labels: labels, Sample: sample})
 
 func genStructured(t *rapid.T) Case {
-	maxLen := vk.Pick(20000, 1000000)
+	maxLen := vk.Pick(200000, 1000000)
 	alphas := []string{"AC", "ACGT", "ACGTRYSWKMBDHVN", "\x00\xff", "ab\x00\xffz"}
 	alpha := rapid.SampledFrom(alphas).Draw(t, "alpha")
 	letter := func(name string) byte { return alpha[rapid.IntRange(0, len(alpha)-1).Draw(t, name)] }
@@ -184,25 +195,31 @@ func genStructured(t *rapid.T) Case {
 		}
 		return b
 	}
-	// size-biased length: mostly small, a tail up to maxLen
-	length := func() int {
-		switch rapid.IntRange(0, 9).Draw(t, "size_class") {
+	length := func() int { return vk.DrawSize(t, "len", 0, maxLen) }
+	// a changed letter near the end of a periodic string leaves the longest borders
+	mutPos := func() int {
+		switch rapid.IntRange(0, 3).Draw(t, "mut_where") {
 		case 0:
-			return rapid.IntRange(1000, maxLen).Draw(t, "len_big")
-		case 1, 2:
-			return rapid.IntRange(65, 1000).Draw(t, "len_mid")
+			return -1 - rapid.IntRange(0, 40).Draw(t, "mut_from_end")
+		case 1:
+			return rapid.IntRange(0, 40).Draw(t, "mut_from_start")
 		default:
-			return rapid.IntRange(0, 64).Draw(t, "len_small")
+			return rapid.IntRange(0, 1<<30).Draw(t, "mut_pos")
 		}
 	}
-	c := Case{Kind: rapid.SampledFrom([]string{"literal", "power", "nearpower", "nearpower", "fibonacci", "thuemorse", "fill"}).Draw(t, "kind")}
+	c := Case{Kind: rapid.SampledFrom([]string{"literal", "power", "nearpower", "nearpower", "periodic", "nearperiodic", "nearperiodic", "fibonacci", "thuemorse", "fill"}).Draw(t, "kind")}
 	switch c.Kind {
 	case "literal":
 		c.Unit = unit("lit", 0, 40)
 	case "power", "nearpower":
 		c.Unit = unit("unit", 1, 12)
 		c.Reps = length() / len(c.Unit)
-		c.MutPos = rapid.IntRange(0, 1<<30).Draw(t, "mut_pos")
+		c.MutPos = mutPos()
+		c.MutVal = letter("mut_val")
+	case "periodic", "nearperiodic":
+		c.Unit = unit("unit", 1, 12)
+		c.Reps = length()
+		c.MutPos = mutPos()
 		c.MutVal = letter("mut_val")
 	case "fibonacci", "thuemorse":
 		a := letter("a")
@@ -219,6 +236,46 @@ func genStructured(t *rapid.T) Case {
 }
 
 func TestSub_structured(t *testing.T) { vk.RunRapid(t, subStructured) }
+
+// TestSub_edges walks the edge lengths (vk.EdgeSizes) of 200..10^6 and evaluates, at each, periodic
+// strings, periodic strings with one letter changed (to a smaller and to a larger letter, near the end,
+// late, just past the middle, and at the start), both Fibonacci words, the Thue-Morse word and
+// filler: the long-border inputs on which a table- or index-width slip in Booth's algorithm shows.
+func TestSub_edges(t *testing.T) {
+	positions := func(L int) []int {
+		if vk.Thorough() {
+			return []int{L - 1, L * 7 / 8, L/2 + 1, 1}
+		}
+		return []int{L - 1, L * 7 / 8}
+	}
+	vk.RunEnum(t, subEdges, "edge lengths of 200..10^6 x {periodic, one letter changed, Fibonacci, Thue-Morse, filler}", true, func(yield func(Case) bool) {
+		for _, L := range vk.EdgeSizes(200, 1000000) {
+			rots := []int{L / 3}
+			if vk.Thorough() {
+				rots = []int{1, L / 3, L - 1}
+			}
+			cases := []Case{
+				{Kind: "periodic", Unit: []byte("CG"), Reps: L},
+				{Kind: "periodic", Unit: []byte("GCC"), Reps: L},
+				{Kind: "fibonacci", Unit: []byte("AB"), Reps: L},
+				{Kind: "fibonacci", Unit: []byte("BA"), Reps: L},
+				{Kind: "thuemorse", Unit: []byte("AB"), Reps: L},
+				{Kind: "fill", Fill: uint64(L) ^ vk.Seed(), Alpha: "AC", Reps: L},
+			}
+			for _, p := range positions(L) {
+				for _, v := range []byte{'A', 'T'} {
+					cases = append(cases, Case{Kind: "nearperiodic", Unit: []byte("CG"), Reps: L, MutPos: p, MutVal: v})
+				}
+			}
+			for _, c := range cases {
+				c.Rots = rots
+				if !yield(c) {
+					return
+				}
+			}
+		}
+	})
+}
 
 func TestSub_enum(t *testing.T) {
 	type space struct {
